@@ -280,6 +280,8 @@ EXEC_SCRIPTS = {
     "reassign-from-call-returning-parameter-list": "a = [1, 2, 3]\nb = [0]\ndef pick(xs):\n    return xs\nb = pick(a)\nb.remove(1)\nmon.write(a[0])\nwhile True:\n    b.append(7)\n    b.remove(7)\n    mon.write(a[1])\n    sleep(1)\n",
     "reassign-then-append-then-index-by-len-of-the-other-name": "a = [1, 2, 3]\nb = [0, 0, 0]\nb = a\nb.append(4)\nmon.write(a[len(a) - 1])\nmon.write(b[len(b) - 1])\nwhile True:\n    mon.write(a[len(a) - 1])\n    sleep(1)\n",
     "reassign-then-append-source-then-index-clone-by-len": "a = [1, 2, 3]\nb = [0, 0, 0]\nb = a\na.append(4)\nmon.write(b[len(b) - 1])\nmon.write(a[len(a) - 1])\n",
+    "reassign-from-conditional-with-itself-as-an-arm": "night = [1, 2, 3]\nactive = [7, 8, 9]\nn = 0\nwhile True:\n    active = night if n % 3 == 0 else active\n    active.append(n)\n    active.remove(n)\n    mon.write(active[0])\n    n = n + 1\n    sleep(1)\n",
+    "reassign-string-list-from-conditional-with-itself": "a = ['x', 'y']\nb = ['p', 'q']\nn = 0\nwhile True:\n    b = b if n % 2 == 0 else a\n    mon.write(b[1])\n    n = n + 1\n    sleep(1)\n",
     "reassign-from-literal-and-comprehension-each-pass": "b = [0]\nwhile True:\n    b = [1, 2]\n    b.append(3)\n    mon.write(b[2])\n    sleep(1)\n",
     "comprehension-then-index": "while True:\n    sq = [i * i for i in range(5)]\n    mon.write(sq[4])\n    mon.write(sq[-1])\n    sleep(1)\n",
     "list-passed-through-helper-index": "xs = [4, 5, 6]\ndef at(k):\n    return xs[k]\nj = 0\nwhile True:\n    v = at(j % 3)\n    mon.write(v)\n    j = j + 1\n    sleep(1)\n",
